@@ -18,6 +18,7 @@ CONTRACT_MODULES = [
     "contracts.ipsc",
     "contracts.hstrp_handler",
     "contracts.storage",
+    "contracts.p2p_rdac",
 ]
 
 TRUSTED_BASE = [
@@ -115,5 +116,11 @@ PROPS = {
         level_note="Bound: <= 3 records, 4 literal addresses, 6 patch shapes (values symbolic). Hidden state of the storage is only reachable through the histories that build the pre-states (creations preceded / interleaved by missed lookups). uuid4 freshness is an assumption. Mostly concrete exploration (one path per shape).",
         explanation="contracts RepeaterStorage.match_incoming / lookups / save / patch_of_id, Repeater.attr",
         assumptions=["uuid.uuid4 returns a fresh id"],
+    ),
+    "C18": dict(
+        level_text="Inductive proof over datagram histories: ONE datagram (registration / DMR start-up / RDAC start-up / ping / ack / unknown command / truncated command / garbage, literal prefixes with symbolic filler octets) from one of three peers, delivered to the P2P handler over a storage pre-state in which each peer is absent / present-unregistered / present-registered: acceptance, redirect and ping answers only for a source registered in the pre-state and only to its stored outbound address or the requester; exactly the single-byte reject to the requester otherwise; only a registration creates or registers; other peers' records untouched. RDAC: one datagram (1-byte reset / the expected response with symbolic body / an unexpected response / garbage) for every step 0..14: the step advances only on the expected response, a reset restarts (step 1, one STEP0 request to that peer), another peer's step never changes, completion callback exactly on 13 -> 14 with that peer's record id.",
+        level_note="Bound: 3 peers (quick: 8 of the 27 status combinations; thorough: all), literal datagram lengths, step-6 text region literal (UTF-16 decoding is outside the engine). Repeater.read_snmp_values (network) is replaced by a stub in both modes - an assumed external contract, as the property's hook note says. A peer is an IP for RDAC (as in the property's state description). ValueError (octet overflow of data[4] += 1) and IndexError (truncated ping) are tolerated outcomes: the statement does not claim the handlers never raise.",
+        explanation="contracts P2PDatagramProtocol.datagram_received, RDACDatagramProtocol.datagram_received",
+        assumptions=["Repeater.read_snmp_values is replaced by a stub returning no values (network I/O)"],
     ),
 }
